@@ -309,6 +309,12 @@ func tamperSigned(t *rapid.T, b *opBuild, class string, p protocol.Protocol) []b
 		delete(b.Req, "revealValue")
 	case "reveal-other-key":
 		b.Req["revealValue"] = otherKey(t, b.SignKey).Reveal(b.Alg)
+		if rapid.Bool().Draw(t, "signedCarriesRightReveal") {
+			// a reveal value inside the signed data is not the operation's reveal value
+			b.Signed["revealValue"] = b.Reveal
+			b.sign()
+			b.Req["signedData"] = b.JWS
+		}
 	case "reveal-malformed":
 		b.Req["revealValue"] = rapid.SampledFrom([]string{"abc", "", "EiA", b.Reveal + "A", strings.Repeat("E", 120)}).Draw(t, "badReveal")
 	case "reveal-respelled":
